@@ -1057,6 +1057,9 @@ class MultiColumnReader(ColumnReader):
         else:
             assert len(offsets) == len(readers)
             self._doc_offsets = offsets
+            if readers:
+                # The combined column ends where the last reader ends
+                self._doccount = offsets[-1] + len(readers[-1])
 
     def _document_reader(self, docnum):
         return max(0, bisect_right(self._doc_offsets, docnum) - 1)
